@@ -101,6 +101,10 @@ int vnacal_new_set_m_error(vnacal_new_t *vnp,
 		"vnacal_new_set_frequency_vector must be called first");
 	return -1;
     }
+    if (frequencies == 1) {
+	/* single values apply to all frequencies: the vector isn't used */
+	frequency_vector = NULL;
+    }
     if (frequency_vector != NULL) {
 	double fmin, fmax;
 	double lower, upper;
